@@ -37,6 +37,7 @@ func TestSim(t *testing.T) {
 	simcore.Main(t, "C14", []simcore.Scenario{
 		{Name: "schedules", Weight: 12, Run: runSchedules},
 		{Name: "enumerate", Weight: 1, Run: runEnumerate},
+		{Name: "node-balance", Weight: 3, Run: runNodeBalance},
 	})
 }
 
